@@ -28,7 +28,7 @@ FILES = ["abel/basex.py", "abel/dasch.py", "abel/daun.py", "abel/direct.py", "ab
 
 
 def run(tier, prop=PROP, module=MODULE, files=FILES):
-    ck = Check(prop, tier, level="partial")
+    ck = Check(prop, tier)
     deep = tier == "thorough"
     sizes = [25, 51, 101, 201, 301] if deep else [25, 51, 101]
     drs = (1.0, 0.5) if deep else (1.0,)
